@@ -283,6 +283,22 @@ def r20_8(ck: Check) -> None:
         ck.violated("R20.8", construct, "%s" % [e.describe()[:160] for e in st], m.fi.loc)
 
 
+def r20_9(ck: Check) -> None:
+    """the number of sockets the node opens is capped below the usual soft descriptor limit (1024): peers can announce any number of
+    addresses, and socket() failing in the manager step is outside every per-connection handler"""
+    caps = ck.repo.const("skepticoin.networking.local_peer.MAX_SELECTOR_SIZE_BY_PLATFORM")
+    s = ck.summ(LPQ + "start_outgoing_connection", 0)
+    construct = "start_outgoing_connection dials only while fewer than MAX_SELECTOR_SIZE (<= 512 on every platform) sockets are registered"
+    rets = [r for r in s.returns() if any("get_map" in show(c.term) for c in r.pc)]
+    dial = [e for e in s.events if e.kind == "call" and e.parts and e.parts[0] == ("g", "ext:socket.socket")]
+    okc = isinstance(caps, dict) and caps and all(isinstance(v, int) and 0 < v <= 512 for v in caps.values())
+    if okc and rets and dial and all(r.seq < dial[0].seq for r in rets):
+        ck.ok("R20.9", construct, "caps %s" % caps, s.fi.loc)
+    else:
+        ck.violated("R20.9", construct, "caps %r, guard before socket(): %s" % (caps, bool(rets)), s.fi.loc)
+    ck.assume("the process may open at least 600 descriptors (usual soft RLIMIT_NOFILE: 1024)")
+
+
 def r20_4(ck: Check) -> None:
     from .c09 import r09_flow
     from .c10 import r10_4
@@ -379,6 +395,7 @@ def check(ck: Check) -> None:
     ck.run("R20.4", "validate before mutate", lambda: r20_4(ck))
     ck.run("R20.5", "bounded reads", lambda: r20_5(ck))
     ck.run("R20.7", "dialling an announced address cannot end the loop", lambda: r20_7(ck))
+    ck.run("R20.9", "outgoing dials are capped below the descriptor limit", lambda: r20_9(ck))
     ck.run("R20.8", "the event loop ends only through its flag, dispatches every ready socket, and never waits unboundedly", lambda: r20_8(ck))
     from .c09 import r09_5
     ck.run("R09.5", "buffering a block before validation writes nothing", lambda: r09_5(ck))
